@@ -51,6 +51,14 @@ EDITS = {
    "        let has_value = {\n            let mut slot = self.shared.slot.lock().unwrap();\n            f(&mut slot);\n            slot.is_some()\n        };\n\n        if has_value {\n            self.shared.notify.notify_one();\n        }\n        Ok(())",
    "        let mut pending = self.shared.slot.lock().unwrap();\n        f(&mut pending);\n        let wake = pending.is_some();\n        drop(pending);\n\n        if wake {\n            self.shared.notify.notify_one();\n        }\n        Ok(())",
    "Sender::modify: the block that scopes the lock guard replaced by an explicit drop of the guard; locals renamed"),
+ "C02-h2": ("scylla/src/network/connection.rs",
+   "        let block_id = stream_id as usize / 64;\n        let off = stream_id as usize % 64;\n        self.used_bitmap[block_id] &= !(1 << off);",
+   "        let word = stream_id as usize / 64;\n        let bit = stream_id as usize % 64;\n        self.used_bitmap[word] &= !(1 << bit);",
+   "StreamIdSet::free: the two locals renamed, nothing else"),
+ "C11-h2": ("scylla/src/routing/sharding.rs",
+   "        let mut biased_token = (token.value as u64).wrapping_add(1u64 << 63);\n        biased_token <<= self.msb_ignore;\n        (((biased_token as u128) * (self.nr_shards.get() as u128)) >> 64) as Shard",
+   "        let mut biased = (token.value as u64).wrapping_add(1u64 << 63);\n        biased <<= self.msb_ignore;\n        (((biased as u128) * (self.nr_shards.get() as u128)) >> 64) as Shard",
+   "shard_of: the local renamed, nothing else"),
 }
 def main():
     for name, (f, old, new, note) in EDITS.items():
